@@ -267,6 +267,32 @@ def eval_pools(case):
                     bad('pools/index-by-delegation', f'{did}: {w} vs {g2}')
                 if pools.get_node_ids(did) != back.get_node_ids(did):
                     bad('pools/node-ids-by-delegation', f'{did}: {pools.get_node_ids(did)} vs {back.get_node_ids(did)}')
+    # history: an indexed pool moves to another delegation id and the container is indexed again - the result is what a
+    # container built that way from scratch gives
+    try:
+        def build_family(f2):
+            ps = Pools(atype=T[t])
+            for i, (on, ref, did) in enumerate(f2):
+                p = Pool(atype=T[t], pool_id=f'pool{i}', delegation_id=did, defined_on=on, defined_for=list(ref))
+                p.set_pool_details(mk_details(t, i % 4))
+                ps.add_pool(pool=p)
+            ps.build_index_by_delegation_id()
+            return ps
+
+        def view(ps):
+            ids = sorted(ps.get_delegation_ids())
+            per = ps.generate_delegations_by_node_id()
+            return (ids, {d: sorted(p.get_pool_id() for p in (ps.get_pools_by_delegation_id(d) or [])) for d in ids + ['d1', 'd2', 'd3']},
+                    {n: describe(ds) for n, ds in per.items()})
+        fam2 = [(on, ref, 'd3' if i == 0 else did) for i, (on, ref, did) in enumerate(fam)]
+        pools.get_pool_by_id(pool_id='pool0').set_delegation_id(delegation_id='d3')
+        pools.build_index_by_delegation_id()
+        got2, want2 = view(pools), view(build_family(fam2))
+        if got2 != want2:
+            part = 'ids' if got2[0] != want2[0] else 'index' if got2[1] != want2[1] else 'node-delegations'
+            bad(f'pools/reindex-after-change/{part}', f'after moving pool0 to d3 and re-indexing: {got2[:2]} expected {want2[:2]}')
+    except Exception as e:
+        bad(f'pools/reindex-after-change/raises/{type(e).__name__}', str(e))
     shared = len({f[2] for f in fam}) < len(fam)
     return {'v': v, 'nt': (t, tuple(fam)), 'out': f'k{len(fam)}{"-shared-delegation" if shared else ""}'}
 
